@@ -123,6 +123,14 @@ def make_value(eng, path, name, kind, tag, fi=None):
         return new_group_shaped(eng, path, name, tag.split(":")[1])
     if kind in ("optname", "name") and tag == "str":
         return SStr([Atom(z3.String(f"{name}"), "name", {"key": name})])
+    if tag in ("True", "False"):
+        return tag == "True"
+    if tag.startswith("const:"):
+        return int(tag.split(":")[1])
+    if tag == "int_outside_2_16":
+        v = z3.Int(name)
+        path.assume(z3.Or(v < 2, v > 16))
+        return v
     if tag.startswith("classobj"):
         # an arbitrary instance of the class layer: inferred type Class (or Token after the one-character collapse),
         # any negation flag, any verbose text
@@ -182,7 +190,12 @@ def make_args(eng, path, fork, fi, contract):
 # spec builtins (symbolic)
 
 def sb_EMPTY(eng, path, p):
-    return isinstance(p, Obj) and p.kind == "pregex" and path.getf(p, "_Pregex__type").name == "Empty"
+    if not (isinstance(p, Obj) and p.kind == "pregex"):
+        return False
+    raw = path.resolved(path.fields(p).get("_Pregex__type"))
+    if isinstance(raw, Unknown):
+        return False            # an undetermined type is never Empty (undetermined results have a non-empty text)
+    return path.getf(p, "_Pregex__type").name == "Empty"
 
 
 def sb_TYPE(eng, path, p):
@@ -302,12 +315,34 @@ def sb_ESC(eng, path, s):
 
 
 def sb_TYPEV(eng, path, p):
+    """the inferred type as a value; an undetermined one stays undetermined until something depends on it (comparisons
+    narrow it, see Engine.unknown_is)"""
+    raw = path.fields(p).get("_Pregex__type")
+    if isinstance(raw, Unknown):
+        return path.resolved(raw)
     return path.getf(p, "_Pregex__type")
 
 
 def sb_RULE(eng, path, p, idx):
     """the grouping rule the CODE's table gives for the operand's inferred type (read from the real class)"""
     rules = pregex_class(eng).pyobj._Pregex__groupping_rules
+    raw = path.fields(p).get("_Pregex__type")
+    if isinstance(raw, Unknown) and id(raw) not in path.forced:
+        # an undetermined type is narrowed only as far as the rule needs: the types the class invariant allows are split
+        # into those for which the rule says "group" and the others (two cases instead of one per type)
+        cands = path.partial.get(id(raw), (raw, eng.unknown_type_candidates()))[1]
+        yes = [t for t in cands if bool(rules[t][idx])]
+        no = [t for t in cands if not bool(rules[t][idx])]
+        if yes and no:
+            i = path.choose([("rule applies", True), ("rule does not apply", True)], f"grouping rule {idx} of {p.label}")
+            keep = yes if i == 0 else no
+        else:
+            keep = yes or no
+        if len(keep) == 1:
+            path.forced[id(raw)] = (raw, keep[0])
+        else:
+            path.partial[id(raw)] = (raw, keep)
+        return bool(rules[keep[0]][idx])
     return bool(rules[path.getf(p, "_Pregex__type")][idx])
 
 
@@ -622,6 +657,42 @@ def sb_NEGATED(eng, path, p):
 
 def sb_VERBOSE(eng, path, p):
     return path.getf(p, "_Class__verbose")
+
+
+def sb_CALLQ(eng, path, qualname, *args):
+    """the function `qualname` of the package applied to the arguments, by its contract (or on constants: executed)"""
+    from .symex import Frame
+    return eng.call_function(eng.index.func(qualname), list(args), {}, Frame(None, {}, None, eng.spec_module), path)
+
+
+def sb_PAT(eng, path, text):
+    """Pregex(text, escape=False) for a constant reference text"""
+    ci = eng.index.modules["pregex.core.pre"].classes["Pregex"]
+    return concrete_construct(eng, ci, [text, False], {}, None, path)
+
+
+def sb_INTB(eng, path, x):
+    """what isinstance(x, int) accepts: an int or a bool"""
+    return is_intv(x) or is_boolv(x)
+
+
+def sb_NUMERAL_DIGITS(eng, path, base):
+    """the digit class of a base, as the real code builds it: Numeral(base, 1, 1, is_extensible=True)"""
+    if not isinstance(base, int) or isinstance(base, bool):
+        raise Limitation("NUMERAL_DIGITS of a symbolic base")
+    ci = eng.index.modules["pregex.meta.essentials"].classes["Numeral"]
+    return concrete_construct(eng, ci, [base, 1, 1, True], {}, None, path)
+
+
+def sb_NEW(eng, path, cname, *args):
+    """construct an instance of a public class of the package from (constant) arguments, as the code would"""
+    from .symex import ClassRef, Frame
+    for mname in ("pregex.core.classes", "pregex.core.assertions", "pregex.core.tokens", "pregex.core.operators",
+                  "pregex.core.quantifiers", "pregex.core.groups", "pregex.meta.essentials"):
+        ci = eng.index.modules[mname].classes.get(cname) if mname in eng.index.modules else None
+        if ci is not None:
+            return eng.construct(ClassRef(ci.name, ci, ci.pyobj), list(args), {}, Frame(None, {}, None, eng.spec_module), path)
+    raise Limitation(f"NEW({cname})")
 
 
 def sb_ISGLOBALWORD(eng, path, x):
@@ -1006,7 +1077,7 @@ def ret_pregex(eng, path, env, fi, contract):
             path.memo[key] = obj
             return obj
     ref = eval_spec(eng, c["ref"], env, path, fi) if c.get("ref") else None
-    key = (fi.qualname, tuple(value_key(v) for v in env.values()))
+    key = (fi.qualname, tuple(value_key(v, path, fi.qualname.startswith('pregex.core.classes.')) for v in env.values()))
     if key in path.memo:
         return path.memo[key]
     obj = Obj(pregex_class(eng), "pregex", label="res:" + fi.qualname.split(".")[-1])
@@ -1024,15 +1095,36 @@ def ret_pregex(eng, path, env, fi, contract):
     return obj
 
 
-def value_key(v):
+def value_key(v, path=None, class_layer=False):
+    """identity of a value for the memo of contract results: Pregex values are identified by their CONTENT (text, inferred
+    type, flag, class-layer fields) - the library's operations are functions of the operands' fields (C20), so two
+    instances with the same content have the same results"""
     if isinstance(v, Obj):
+        ck = getattr(v, "ckey", None)
+        if ck is not None:
+            return ck          # a value computed from constants by the real code: equal content, equal key
+        if path is not None and v.kind == "pregex":
+            f = path.fields(v)
+            if "_Pregex__pattern" in f:
+                def fk(x):
+                    if isinstance(x, Unknown):
+                        return ("unknown", id(x))
+                    if is_sym(x):
+                        return ("z3", x.sexpr())
+                    if isinstance(x, SStr) or isinstance(x, str):
+                        return str_key(x)
+                    return getattr(x, "name", repr(x))
+                ks = ("_Pregex__pattern", "_Pregex__type", "_Pregex__repeatable")
+                if class_layer:
+                    ks += ("_Class__is_negated", "_Class__verbose")      # only the class algebra looks at these
+                return ("pobj",) + tuple(fk(f.get(k)) for k in ks)
         return ("obj", v.oid)
     if is_sym(v):
         return ("z3", v.sexpr())
     if isinstance(v, SStr):
         return v.key()
     if isinstance(v, (tuple, list)):
-        return tuple(value_key(x) for x in v)
+        return tuple(value_key(x, path, class_layer) for x in v)
     return repr(v)
 
 
@@ -1123,7 +1215,7 @@ def ret_wrapped_init(eng, path, env, fi, contract):
 
 def ret_opaque_other(eng, path, env, fi, contract):
     """an arbitrary non-empty Pregex of inferred type Other (assumed result of a text-building helper)"""
-    key = (fi.qualname, tuple(value_key(v) for v in env.values()))
+    key = (fi.qualname, tuple(value_key(v, path, fi.qualname.startswith('pregex.core.classes.')) for v in env.values()))
     if key not in path.memo:
         path.memo[key] = new_pregex(eng, path, fi.qualname.split(".")[-1], "Other")
     return path.memo[key]
@@ -1197,7 +1289,7 @@ def ret_class_init(eng, path, env, fi, contract):
 
 
 def ret_opaque_class(eng, path, env, fi, contract):
-    key = (fi.qualname, tuple(value_key(v) for v in env.values()))
+    key = (fi.qualname, tuple(value_key(v, path, fi.qualname.startswith('pregex.core.classes.')) for v in env.values()))
     if key not in path.memo:
         path.memo[key] = new_pregex(eng, path, "union", "Class")
     return path.memo[key]
@@ -1260,9 +1352,12 @@ def concrete_construct(eng, ci, args, kwargs, fr, path):
     if key not in _concrete_cache:
         _concrete_cache[key] = native_fast("construct", {"module": ci.module.name, "cls": ci.name, "args": args, "kwargs": kwargs})
     r = _concrete_cache[key]
+    if r.get("unfaithful"):
+        return None             # not executable on constants: the caller falls back to the contract
     if "exception" in r:
         raise RaiseExc(r["exception"], Obj(r["exception"], kind="exception"))
     obj = new_pregex(eng, path, ci.name, r["type"], cls=ci, text=r["pattern"], repeatable=r["repeatable"])
+    obj.ckey = None
     if "class" in r:
         f = path.fields(obj)
         f["_Class__is_negated"] = r["class"]["negated"]
@@ -1280,10 +1375,22 @@ def concrete_call(eng, fi, env, fr, path):
     if key not in _concrete_cache:
         _concrete_cache[key] = native_fast("call_concrete", {"qualname": fi.qualname, "args": args})
     r = _concrete_cache[key]
+    if r.get("unfaithful"):
+        return eng.apply_contract(fi, eng.contracts[fi.qualname], env, fr, path)
     if "exception" in r:
         raise RaiseExc(r["exception"], Obj(r["exception"], kind="exception"))
     if "pattern" in r:
-        return new_pregex(eng, path, fi.qualname.split(".")[-1], r["type"], text=r["pattern"], repeatable=r["repeatable"])
+        cls = None
+        if "class" in r:
+            cls = eng.index.modules["pregex.core.classes"].classes["__Class"]
+        obj = new_pregex(eng, path, fi.qualname.split(".")[-1], r["type"], cls=cls, text=r["pattern"], repeatable=r["repeatable"])
+        obj.ckey = None
+        if "class" in r:
+            f = path.fields(obj)
+            f["_Class__is_negated"] = r["class"]["negated"]
+            f["_Class__verbose"] = r["class"]["verbose"]
+            f["_ghost_classarg"] = SStr([Atom(z3.String(f"classarg_c_{obj.oid}"), "opq", {"key": f"classarg{obj.oid}"})])
+        return obj
     return r["value"]
 
 
